@@ -35,6 +35,8 @@ CLAIMED.update({
    text='For the 19 scalar constructors of the C API (symbolic selector) and all 2^64 argument bit patterns CBMC decides that the occaType carries the same C type tag, byte size and value bits, that occaType -> occa::primitive -> occaType (untyped and typed) returns the identical occaType for the numeric constructors, and that the kernel-argument conversion yields one non-pointer argument of the same size and bytes for every constructor incl. occaBool.'),
  'C10': dict(level='model_checking', engine=E1, technique='bounded model checking (CBMC/SAT) of dtype_t::canBeCastedTo/isCyclic lifted from LLVM IR against a reference rule', note=E1N + ' PARTIAL CLAIM: only the cast-compatibility rule on flattened dtype vectors is decided. Outside: extraction of argument metadata by the parser, the fresh-vs-cached clause (parser + build.json I/O), modeKernel_t::setupRun itself (needs a kernel object with occa::json properties), flattening of struct/tuple/union trees, the byte wildcard. dtype objects are zero-initialised raw storage with the flattened vectors set directly (private members opened in the wrapper TU).', design='5/C10',
    text='For every pair of flattened dtype vectors of lengths 1..4 (thorough 1..6) over three distinct leaf dtypes, with symbolic leaf choices, CBMC decides that canBeCastedTo answers exactly "equal, or the longer is a whole-number repetition of the shorter", symmetrically and without division by zero or out-of-bounds access; a dtype that flattens to no entries is never castable to a non-empty one and asking does not crash.'),
+ 'C01': dict(level='model_checking', engine=E1, technique='exhaustive one-step transition enumeration, each step discharged by CBMC on the real handle code lifted from LLVM IR (invariant + reference model + memory safety); induction over the invariant gives histories of any length', note=E1N + ' States, operations and operands are CONCRETE and enumerated exhaustively (3 handles, 2 objects): a single symbolic handle index makes every ring pointer symbolic and CBMC does not finish within minutes, so the solver contributes the per-step verdict (use-after-free, double free, invalid pointers, invariant), not a quantifier over values. Cut: the buffer layer below modeMemory_t (modeBuffer == NULL; json/device functions of the buffer double are empty models). Only occa::memory handles are lifted; the other handle types use the same gc::ring_t<T> template.', design='5/C01',
+   text='From every valid state shape of 3 occa::memory handles over 2 backend objects (built with the real constructors, object reference counted or not) every operation - assignment, copy construction, scope exit, swap, free(), dontUseRefs() - on every operand pair runs once on the real code under CBMC; afterwards each live object\'s ring must hold exactly the handles that refer to it, isInitialized() must match the reference model (false after free()), destructor counts must be exactly what the model predicts, no freed object may be touched (CBMC pointer checks), and after all handles go out of scope every reference-counted object has been destroyed exactly once.'),
 })
 NA = {}
 def load_na():
